@@ -276,6 +276,9 @@ def _place_objects_chunk(chunk, seed, count):
             rvol, exp = _expected(sym, nvol, boxes)
             if tuple(oc.volume.grid_shape) != rvol:
                 problems.append(f"reduced volume {oc.volume.grid_shape} != {rvol}")
+            vun = tuple((-(nvol[a] // 2), nvol[a] // 2) if sym[a] != 0 else (0, nvol[a]) for a in range(3))
+            if tuple(oc.volume.unreduced_grid_slice_tuple) != vun:
+                problems.append(f"volume unclipped extent {oc.volume.unreduced_grid_slice_tuple} != {vun}")
             if tuple(arrays.fields.E.shape[1:]) != rvol:
                 problems.append(f"field shape {arrays.fields.E.shape} != reduced volume {rvol}")
             placed = {o.name: o for o in oc.objects}
@@ -380,6 +383,9 @@ def replay(key, obligation, witness):
         want = (0, n[a] // 2) if sym[a] != 0 else vol[a]
         if tuple(new["vol"][a]) != want or rshape[a] != want[1] - want[0]:
             problems.append(f"volume axis {a}: {new['vol'][a]} shape {rshape[a]} != {want}")
+        wantu = (vol[a][0] - m[a], vol[a][1] - m[a]) if sym[a] != 0 else vol[a]
+        if tuple(unred["vol"][a]) != wantu:
+            problems.append(f"volume unclipped extent axis {a}: {unred['vol'][a]} != {wantu}")
     for name, box in boxes.items():
         below = any(sym[a] != 0 and box[a][1] <= m[a] for a in range(3))
         if below != (name in dropped) or (name in new) == below:
